@@ -260,7 +260,7 @@ func init() {
 		Batches:     func(t string) int { return pick(t, 4, 16) },
 		Floor:       func(t string) int { return pick(t, 100, 1200) },
 		TimeoutSec:  func(t string) int { return pick(t, 600, 1800) },
-		Prepare:     gramPrepare("C14", func(t string) int { return pick(t, 150, 400) }, c14Opts, nil, false),
+		Prepare:     gramPrepare("C14", func(t string) int { return pick(t, 350, 900) }, c14Opts, nil, false),
 		Child:       c14Child,
 	})
 }
